@@ -35,6 +35,7 @@ fn main() {
         "conn" => conn_gen::generate(tier, seed, &args[4.min(args.len())..], &mut out),
         "tables" => tables::generate(tier, seed, &mut out),
         "codec" => codec::generate(tier, seed, &mut out),
+        "codec-big" => codec::big_payload(&mut out),
         "replay" => {
             let text = std::fs::read_to_string(&args[3]).expect("trace file");
             match args[2].as_str() {
